@@ -17,7 +17,7 @@ import (
 
 // C07 — a diff reports only real differences: no no-op, no redundant hunk.
 
-var c07OptSets = []string{"list", "list", "set", "mset", "setkeys:id", "merge", "set+merge", "mset+merge", "set+mset", "mset+set"}
+var c07OptSets = []string{"list", "list", "prec:0", "set", "mset", "setkeys:id", "merge", "set+merge", "mset+merge", "set+mset", "mset+set"}
 
 // locate walks a hunk path prefix (everything but a trailing index / {} /
 // []) in doc. present=false means a key on the way is absent.
@@ -298,7 +298,7 @@ func genC07(t *rapid.T) PairCase {
 		}
 		return a, gen.EditN(t, a, p, 2, 6)
 	}
-	if opts == "list" && gen.Chance(t, "longDistant", 3) {
+	if opts == "list" && gen.Rare(t, "longDistant", 3) {
 		// a long array with two edits far apart
 		n := gen.Int(t, "n", 520, 700*gen.Scale())
 		a := make([]val.V, n)
